@@ -64,3 +64,17 @@ Definition radius_ok (M : mat3) (r2 : Z * Z) (D : Z) : bool :=
 
 (* supercell folding of one component: np.mod(x, 1/s) * s  (s divides D) *)
 Definition fold (D s x : Z) : Z := (x mod (D / s)) * s.
+
+(* ---------- the computation as the code writes it ----------
+   close -= np.floor(close - sym_coords + 0.5);  inversed = op.inverse.operate_multi(close);  centered = inversed - site_coords
+   i.e. the *position* is moved to the image nearest to the equivalent site, the inverse operation (x |-> W^-1 x - W^-1 w) is applied to it,
+   and the site is subtracted afterwards *)
+Definition shift1 (D c s : Z) : Z := c - D * ((2 * (c - s) + D) / (2 * D)).
+Definition shift3 (D : Z) (c s : V3) : V3 :=
+  let '(c1, c2, c3) := c in let '(s1, s2, s3) := s in (shift1 D c1 s1, shift1 D c2 s2, shift1 D c3 s3).
+Definition point_literal (D : Z) (o inv : symop) (site p : V3) : V3 :=
+  let sym := apply_op o site in vsub3 (apply_op inv (shift3 D p sym)) site.
+Definition inverse_of (o inv : symop) : Prop := is_inverse (W inv) (W o) = true /\ wt inv = vneg3 (mulv (W inv) (wt o)).
+Definition points_literal (D : Z) (G : gram) (K : Z) (r2 : Z * Z) (ops : list (symop * symop)) (site : V3) (positions : list V3) : list V3 :=
+  flat_map (fun oi => let sym := apply_op (fst oi) site in
+                      map (point_literal D (fst oi) (snd oi) site) (filter (selected D G K r2 sym) positions)) ops.
